@@ -30,12 +30,12 @@ Lemma commit_err r o k sg e :
   (e = EExceedsMaxSize /\ is_set_seq o = false /\ pre_check o = true /\
      MAX_ENR_SIZE < size (cand (seq r) (nid r) (spec_pairs o k (content r)) (sig r))) \/
   (e = ESequenceNumberTooHigh /\ is_set_seq o = false /\ seq r = U64_MAX) \/
-  (e = EUnsupportedIdentityScheme /\ sm_get k_id (spec_pairs o k (content r)) <> Some (enc_string v4)) \/
+  (e = EUnsupportedIdentityScheme /\ id_is_v4 (cand 0 [] (spec_pairs o k (content r)) []) = false) \/
   (e = ESigningError /\ sg (to_sign r o k) = None) \/
   (e = EExceedsMaxSize /\ exists s, sg (to_sign r o k) = Some s /\ MAX_ENR_SIZE < size (result_with r o k s)).
 Proof.
-  assert (Hid : forall sq nd m s, id_is_v4 (cand sq nd m s) = false -> sm_get k_id m <> Some (enc_string v4)).
-  { intros sq nd m s Hf Hg. pose proof (WellFormedLemmas.get_id_is_v4 (cand sq nd m s) Hg). congruence. }
+  assert (Hid : forall sq nd m s, id_is_v4 (cand sq nd m s) = false -> id_is_v4 (cand 0 [] m []) = false).
+  { intros sq nd m s Hf. exact Hf. }
   unfold to_sign, result_with.
   destruct o; cbn [commit new_seq is_set_seq]; intros Em;
     try (apply finish_err in Em;
@@ -86,6 +86,7 @@ Proof.
   destruct (commit c kt r o k sg) as [r1|e1|] eqn:Em; cbn [bind] in H; [discriminate| |discriminate].
   injection H as He0 _; subst e1.
   destruct (commit_err _ _ _ _ _ Em) as [Hk|[(-> & H1 & H2 & H3)|[(-> & H1 & H2)|[(-> & H1)|[(-> & H1)|(-> & H1)]]]]]; auto.
+  2:{ right. intros Hg. pose proof (WellFormedLemmas.get_id_is_v4 (cand 0 [] (spec_pairs o k (content r)) []) Hg). congruence. }
   pose proof (check_keyed_by_err c kt _ _ _ Hk) as Hr.
   destruct e; try discriminate; (split; [reflexivity | right; exact Hk]).
 Qed.
@@ -164,6 +165,55 @@ Theorem set_seq_refused_iff r n k sg s :
 Proof.
   intros Hk Hid Hs. rewrite (set_seq_outcome r n k sg s Hk Hid Hs).
   destruct (MAX_ENR_SIZE <? _) eqn:E; cbn [fst]; split; intros H; try discriminate; try reflexivity; lia.
+Qed.
+
+(* ---- the causes that hold of a call whatever the order in which the code looks for them ---- *)
+Definition err_of {A} (x : res A) : list err := match x with Err e => [e] | _ => [] end.
+
+(* every cause of failure that can be decided before signing: an ill-typed written value (any of them), a result not
+   keyed by the signer, the size limit already exceeded with the old signature (operations that check first), the
+   sequence number exhausted, the identity scheme missing from the result *)
+Definition presign_causes (r : record) (o : op) (k : skey) : list err :=
+  let m := spec_pairs o k (content r) in
+  flat_map (fun kv => err_of (check_reserved c (fst kv) (snd kv))) (checked_inserts o) ++
+  err_of (check_keyed_by c kt m k) ++
+  (if negb (is_set_seq o) && pre_check o && (MAX_ENR_SIZE <? size (cand (seq r) (nid r) m (sig r))) then [EExceedsMaxSize] else []) ++
+  (if negb (is_set_seq o) && (seq r =? U64_MAX) then [ESequenceNumberTooHigh] else []) ++
+  (if id_is_v4 (cand 0 [] m []) then [] else [EUnsupportedIdentityScheme]).
+
+Lemma check_list_err_in kvs e : check_list c kvs = Err e ->
+  In e (flat_map (fun kv => err_of (check_reserved c (fst kv) (snd kv))) kvs).
+Proof.
+  intros H. destruct (check_list_err _ _ _ H) as (kv & Hin & He). apply in_flat_map. exists kv. split; [exact Hin|].
+  rewrite He. left. reflexivity.
+Qed.
+
+Lemma id_is_v4_cand sq nd m s sq' nd' s' : id_is_v4 (cand sq nd m s) = id_is_v4 (cand sq' nd' m s').
+Proof. reflexivity. Qed.
+
+(* whatever order an implementation checks in: the error the model reports is one of the causes that hold of the call
+   before signing, or the signer refused, or the signed result is too large *)
+Theorem step_err_is_a_cause r o k sg e r' :
+  step c kt r o k sg = (Err e, r') ->
+  In e (presign_causes r o k) \/
+  (e = ESigningError /\ sg (to_sign r o k) = None) \/
+  (e = EExceedsMaxSize /\ exists s, sg (to_sign r o k) = Some s /\ MAX_ENR_SIZE < size (result_with r o k s)).
+Proof.
+  unfold step. rewrite apply_op_nf. intros H. unfold presign_causes. cbv zeta.
+  destruct (check_list c (checked_inserts o)) as [[]|e1|] eqn:Ec; cbn [bind] in H.
+  2:{ injection H as He0 _; subst e1. left. apply in_or_app. left. apply check_list_err_in. exact Ec. }
+  2:{ discriminate. }
+  destruct (commit c kt r o k sg) as [r1|e1|] eqn:Em; cbn [bind] in H; [discriminate| |discriminate].
+  injection H as He0 _; subst e1.
+  destruct (commit_err _ _ _ _ _ Em) as [Hk|[(-> & H1 & H2 & H3)|[(-> & H1 & H2)|[(-> & H1)|[(-> & H1)|(-> & H1)]]]]].
+  - left. apply in_or_app. right. apply in_or_app. left. rewrite Hk. left. reflexivity.
+  - left. apply in_or_app. right. apply in_or_app. right. apply in_or_app. left.
+    rewrite H1, H2. replace (MAX_ENR_SIZE <? _) with true by (symmetry; apply N.ltb_lt; exact H3). left. reflexivity.
+  - left. do 3 (apply in_or_app; right). apply in_or_app. left. rewrite H1. replace (seq r =? U64_MAX) with true by (symmetry; apply N.eqb_eq; exact H2).
+    left. reflexivity.
+  - left. do 4 (apply in_or_app; right). rewrite H1. left. reflexivity.
+  - right. left. auto.
+  - right. right. auto.
 Qed.
 
 End WithCrypto.
